@@ -221,6 +221,11 @@ def Q_ec(k, vs):
     return "?ec:%s:%s" % (enc(k), vals(vs))
 
 
+def Q_c4(rk, pk, ek, mk, vs):
+    """enforce_with_context with a hand-assembled EnforceContext {r_type, p_type, e_type, m_type}"""
+    return "?c4:%s:%s:%s:%s:%s" % (enc(rk), enc(pk), enc(ek), enc(mk), vals(vs))
+
+
 def adapter_M(lines=()):
     return "M@%s@0" % enc_rules(list(lines))
 
